@@ -160,3 +160,16 @@ chk("C19", "exploration",
     "independent table) so that the helpers' logic, not the table's accuracy, is judged. NumPy spellings only with atol=0; "
     "dimensionless operands excluded from the NumPy spellings (they adopt the other operand's unit by the library's tested contract).",
     "boundary-constructed Hypothesis cases with SI verdict oracle + metamorphic re-expression; exhaustive decorator usage matrix", "DESIGN.md §3 C19")
+chk("C12", "exploration",
+    "Exhaustive BFS over all histories up to length 3 (quick) / 4 (thorough) on a 16-letter alphabet of registry edits (add, re-add "
+    "with other scale / dimension / prefixability, modify by float, modify by quantity incl. same-scale dimension swap, remove, "
+    "define_unit, on a prefixable symbol, a plain one, an explicit symbol colliding with a derived prefixed spelling, and a default "
+    "symbol) with, after every step, a sweep of 22 probe strings (atomic, SI-prefixed, compound, sqrt) and 12 arithmetic / "
+    "conversion / base-reduction / printed-unit-sync observations (which also populate every cache before the next edit); "
+    "Hypothesis histories of length 5-40 beyond. Oracle: a plain-dict model of the registry's explicit contents with its own "
+    "prefix resolver (what a fresh registry with those contents answers), computed without touching the library. Units captured "
+    "before an edit must keep their value.",
+    "Trusted: scales of unedited default symbols read from the library's table as data; each history runs in a registry carrying a "
+    "unique marker symbol so that the process-wide content-hash-keyed caches cannot mix histories (the cross-registry effect is "
+    "C13's subject).",
+    "exhaustive BFS over edit histories + Hypothesis long histories vs dict model (model-based testing)", "DESIGN.md §3 C12")
